@@ -264,11 +264,14 @@ def r_nvra_glue(model, rep):
         ok, msg = False, "no endswith('.rpm') test"
     else:
         suffix = ends[0].value[2][0][1]
-        want_strip = ("sub", p, ("slice", None, ("unary", "-", ("const", len(suffix))), None))
         alts = set(arg[1]) if arg[0] == "phi" else {arg}
+
+        def is_strip(a):
+            return (a[0] == "sub" and a[1] == p and a[2][0] == "slice" and a[2][1] is None and a[2][3] is None
+                    and facts.fold_small(a[2][2]) == -len(suffix))
         if suffix != ".rpm":
             ok, msg = False, "suffix stripped is %r, expected '.rpm'" % suffix
-        elif alts != {want_strip, p}:
+        elif not (len(alts) == 2 and p in alts and any(is_strip(a) for a in alts)):
             ok, msg = False, "the string matched is %s, expected the argument with exactly len('.rpm') characters cut off when it ends with '.rpm'" % T.show(arg)
     rep.ob("R-NVRA-GLUE", "parse_nvra:rpm-suffix", ok, site=cx.site(m[0].lineno), msg=msg)
     # match is used with .match (anchored at start) -- the proof assumes it
@@ -407,7 +410,8 @@ def r_pred_wiring(model, rep):
             ok, msg = False, "the base product suffix is not appended to the release part"
         if ok:
             gab = [e for e in cx.events if e.kind == "bind" and e.value == ga]
-            if not (gab and gab[0].guards and gab[0].guards[-1] == (("cmp", ("==",), (typ, ("const", "ga"))), True)):
+            if not (gab and facts.canon_guards(facts.own_guards(cx, gab[0])) == frozenset(
+                    [facts.canon_guard((("cmp", ("==",), (typ, ("const", "ga"))), True))])):
                 ok, msg = False, "the type is omitted under a condition other than type == 'ga'"
         if ok and at is not None:
             rhs = at[3]
@@ -478,6 +482,18 @@ def compose_suffix_ladder(model):
     f = model.own_method("composeinfo.Compose", "type_suffix")
     cx = facts.fctx(model, f)
     table = {}
+    # table-lookup form:  return SUFFIXES[self.type]  with a raise for unknown types
+    for ev in cx.events:
+        if ev.kind == "return" and ev.value[0] == "sub" and cx.self_attr(ev.value[2]) == "type":
+            try:
+                d = cx.const_of(T.unwrap(ev.value[1])) if T.unwrap(ev.value[1])[0] != "dict" else dict(
+                    (k[1], v[1]) for k, v in T.unwrap(ev.value[1])[1] if k[0] == "const" and v[0] == "const")
+            except Exception:
+                d = None
+            if isinstance(d, dict) and d:
+                unknown = [e2 for e2 in cx.events if e2.kind == "raise" and (
+                    facts.has_guard(e2, ("cmp", ("in",), (ev.value[2], ev.value[1])), False) or any(g[0] == ("exc", "KeyError") for g in e2.guards))]
+                return dict(d), bool(unknown), cx, f
     for ev in cx.events:
         if ev.kind == "return":
             pos = [g for g in ev.guards if g[1]]
